@@ -84,6 +84,13 @@ CHECKS.update({
         note=RAFT_NOTE, technique="TLA+ model checking (TLC) + crash-point sweep on real replicated Datasets + TLC trace validation", ref="5/C03"),
 })
 
+CHECKS.update({
+    "C16": dict(
+        text="Catalogue.tla defines the allowed placements (per partition any min(R,N)-subset of the members, chosen independently; TLC enumerates the set for small N, R, P). The real allocator is called over a real cluster.Conn for N in {1..16}, R in {1,2,3,8}, P in {1,2,3,7,64} and many seeds; CatalogueTrace accepts a placement iff it is in the allowed set, and rejects a parameter point whose draws are all confined to the diagonal (all partitions on the same nodes) although R < N and P >= 2.",
+        note="Independence is a possibility property, decided with false-alarm probability <= 2^-64 (quick) per parameter point.",
+        technique="TLA+ specification of the allowed placement set (TLC) + TLC trace validation of real allocator draws", ref="5/C16"),
+})
+
 NOT_APPLICABLE = {
     "C15": "Numeric agreement and memory safety of hand-written AVX/SSE kernels: no state machine to specify, TLC has neither IEEE-754 floats nor a memory model; a differential/sanitizer technique would be needed (DESIGN.md section 6).",
 }
